@@ -15,15 +15,56 @@ COORDS = [[0.0, 0.0], [21.0, 0.0], [7.0, 0.0], [14.0, 0.0]]
 _CACHE: dict = {}
 
 
-def _sequence():
-    if "seq" not in _CACHE:
-        from harness.gen import seqs
+def _sequence(device_noise: str = "none"):
+    """The 4-atom sequence; with device_noise != "none" it is declared on a copy of MockDevice whose
+    default_noise_model is that noise model (used with prefer_device_noise_model=True)."""
+    key = ("seq", device_noise)
+    if key not in _CACHE:
+        import dataclasses
 
-        amp = {"k": "const", "d": 20, "v": 4.0}
-        det = {"k": "const", "d": 20, "v": 0.0}
-        _CACHE["seq"] = seqs.build_sequence({"coords": COORDS, "channels": {"ryd": "rydberg_global"},
-                                             "ops": [{"op": "add", "ch": "ryd", "pulse": {"amp": amp, "det": det, "phase": 0.0}}]})
-    return _CACHE["seq"]
+        import pulser
+
+        dev = pulser.MockDevice
+        if device_noise != "none":
+            dev = dataclasses.replace(pulser.MockDevice, default_noise_model=noise_model(device_noise))
+        reg = pulser.Register({f"q{i}": tuple(c) for i, c in enumerate(COORDS)})
+        seq = pulser.Sequence(reg, dev)
+        seq.declare_channel("ryd", "rydberg_global")
+        seq.add(pulser.Pulse.ConstantPulse(20, 4.0, 0.0, 0.0), "ryd")
+        _CACHE[key] = seq
+    return _CACHE[key]
+
+
+class _Stop(BaseException):
+    """Raised by the harness wrapper around MPSBackend._run: the public run() path reached the simulation."""
+
+
+def run_path(seq, cfg) -> dict:
+    """MPSBackend(seq, cfg).run() up to the point where the simulation loop would start (the harness
+    replaces MPSBackend._run in this process by a sentinel): refused (exception) or the implementation class."""
+    import contextlib
+    import io
+
+    from emu_mps import MPSBackend
+
+    orig = MPSBackend.__dict__["_run"]
+
+    def stop(impl):
+        raise _Stop(type(impl).__name__)
+
+    MPSBackend._run = staticmethod(stop)
+    try:
+        with contextlib.redirect_stdout(io.StringIO()):
+            MPSBackend(seq, config=cfg).run()
+        return {"returned": True}
+    except _Stop as s:
+        return {"cls": str(s)}
+    except BaseException as ex:  # noqa: BLE001
+        if isinstance(ex, (KeyboardInterrupt, SystemExit)):
+            raise
+        return {"raised": type(ex).__name__, "msg": str(ex)[:160]}
+    finally:
+        MPSBackend._run = orig
 
 
 def _memoise_optimiser() -> None:
@@ -126,7 +167,7 @@ def noise_model(nc: str):
 
 
 def run_cfg(row: dict) -> dict:
-    """row: {p, e, dt, obs: [tags], reorder, solver, noise}"""
+    """row: {p, e, dt, obs: [tags], reorder, solver, noise, src}"""
     import warnings
 
     warnings.filterwarnings("ignore")
@@ -137,8 +178,9 @@ def run_cfg(row: dict) -> dict:
     out: dict = {"row": row}
     try:
         obs = observables(row["obs"])
-        nm = noise_model(row["noise"])
-        seq = _sequence()
+        device = row.get("src", "config") == "device"
+        nm = None if device else noise_model(row["noise"])
+        seq = _sequence(row["noise"] if device else "none")
     except Exception as ex:
         out["harness_error"] = f"{type(ex).__name__}: {ex}"
         return out
@@ -150,6 +192,8 @@ def run_cfg(row: dict) -> dict:
                     num_gpus_to_use=0, log_level=logging.CRITICAL)
     if nm is not None:
         kw["noise_model"] = nm
+    if device:
+        kw["prefer_device_noise_model"] = True
     out["inputs"] = {"precision": precision, "extra_krylov_tolerance": extra, "autosave_dt": dt}
     try:
         cfg = MPSConfig(**kw)
@@ -179,6 +223,10 @@ def run_cfg(row: dict) -> dict:
         if isinstance(ex, (KeyboardInterrupt, SystemExit)):
             raise
         out["impl"] = {"raised": type(ex).__name__, "msg": str(ex)[:160]}
+    # the public path decides whether DMRG refuses a noisy model
+    if row["solver"] == "dmrg" and row["noise"] != "none":
+        _memoise_optimiser()
+        out["run"] = run_path(seq, cfg)
     return out
 
 
